@@ -17,7 +17,7 @@ static vh_rng_t rng;
 static vh_args_t args;
 static long cur_idx;
 static unsigned long n_events, n_accept;
-static jwt_checker_t *chk;
+static jwt_checker_t *chk2[2];
 static const vh_key_t *cur_key;
 static int classes_seen[64];
 
@@ -34,18 +34,23 @@ static const char *MNAME[M_NCLASS] = { "base", "subst-header", "subst-payload", 
 static void try_token(int cls, int variant, const char *tok)
 {
 	int refvalid = vh_ref_token_valid(cur_key, tok, NULL);
-	int rc = jwt_checker_verify(chk, tok);
-	int ef = jwt_checker_error(chk);
+	int rc[2], ef[2];
+	for (int p = 0; p < 2; p++) {
+		vh_set_prov(p);
+		rc[p] = jwt_checker_verify(chk2[p], tok);
+		ef[p] = jwt_checker_error(chk2[p]);
+		jwt_checker_error_clear(chk2[p]);
+		if (rc[p] == 0) n_accept++;
+	}
 	n_events++;
 	classes_seen[cls]++;
-	if (rc == 0) n_accept++;
-	/* log everything that matters: accepted events, mismatches and a thin sample of the rest */
-	if (rc == 0 || refvalid || (n_events % 97) == 0 || args.only >= 0) {
-		printf("[\"M\",%ld,%d,%d,%d,%d,%d", cur_idx, cls, variant, refvalid, rc, ef);
-		if ((rc == 0 && !refvalid) || args.only >= 0) { printf(","); vh_put_jstr(stdout, tok); }
+	/* log everything that matters: accepted events, disagreements and a thin sample of the rest */
+	if (rc[0] == 0 || rc[1] == 0 || refvalid || (n_events % 97) == 0 || args.only >= 0) {
+		printf("[\"M\",%ld,%d,%d,%d,%d,%d", cur_idx, cls, variant, refvalid, rc[0], rc[1]);
+		if (((rc[0] == 0 || rc[1] == 0) && !refvalid) || rc[0] != rc[1] || args.only >= 0) { printf(","); vh_put_jstr(stdout, tok); }
 		printf("]\n");
 	}
-	jwt_checker_error_clear(chk);
+	(void)ef;
 }
 
 static char *join3(const char *h, const char *p, const char *s)
@@ -204,11 +209,11 @@ static int alg_ok_for(const vh_key_t *k, int alg)
 	}
 }
 
-static void run_case(int prov, int ki, int alg, int base, int pinroute)
+static void run_case(int ki, int alg, int base, int pinroute)
 {
 	const vh_key_t *k = &KA[ki], *kb = &KB[ki];
-	jwk_set_t *set = NULL;
-	const jwk_item_t *pub, *priv;
+	jwk_set_t *set[2] = { NULL, NULL };
+	const jwk_item_t *pub = NULL, *priv[2] = { NULL, NULL };
 	char *tok = NULL, *h, *p, *s;
 	unsigned char sig[1200], tmp[1400];
 	long sl;
@@ -217,29 +222,42 @@ static void run_case(int prov, int ki, int alg, int base, int pinroute)
 	static const char *payload2 = "{\"iss\":\"c01\",\"n\":12346,\"sub\":\"subject\"}";
 	char hdr[96];
 
-	vh_set_prov(prov);
 	cur_key = k;
-	/* checker holds the public (or symmetric) key; pin by explicit alg or by the key's alg attribute */
-	pub = vh_key_load(k, k->kind == VH_K_OCT, pinroute ? vh_alg_name(alg) : NULL, &set);
-	priv = vh_key_load(k, 1, vh_alg_name(alg), &set);
-	if (!pub || !priv || jwks_item_error(pub) || jwks_item_error(priv))
-		vh_harness_fail("key load %s", k->name);
-	chk = jwt_checker_new();
-	if (jwt_checker_setkey(chk, pinroute ? JWT_ALG_NONE : (jwt_alg_t)alg, pub))
-		vh_harness_fail("setkey refused %s/%s: %s", k->name, vh_alg_name(alg), jwt_checker_error_msg(chk));
+	/* one checker per provider, each holding the public (or symmetric) key loaded under that provider;
+	 * pinned by explicit alg or by the key's alg attribute */
+	for (int pv = 0; pv < 2; pv++) {
+		const jwk_item_t *it;
+		vh_set_prov(pv);
+		it = vh_key_load(k, k->kind == VH_K_OCT, pinroute ? vh_alg_name(alg) : NULL, &set[pv]);
+		priv[pv] = vh_key_load(k, 1, vh_alg_name(alg), &set[pv]);
+		if (!it || !priv[pv] || jwks_item_error(it) || jwks_item_error(priv[pv]))
+			vh_harness_fail("key load %s", k->name);
+		if (pv == 0) pub = it;
+		chk2[pv] = jwt_checker_new();
+		if (jwt_checker_setkey(chk2[pv], pinroute ? JWT_ALG_NONE : (jwt_alg_t)alg, it))
+			vh_harness_fail("setkey refused %s/%s: %s", k->name, vh_alg_name(alg), jwt_checker_error_msg(chk2[pv]));
+	}
 
 	snprintf(hdr, sizeof(hdr), "{\"alg\":\"%s\",\"typ\":\"JWT\"}", vh_alg_name(alg));
 	if (base == 0)
 		tok = vh_ref_token(k, alg, hdr, payload);
 	else {
-		jwt_builder_t *b = jwt_builder_new();
-		jwt_value_t jv;
-		jwt_builder_setkey(b, (jwt_alg_t)alg, priv);
-		jwt_builder_enable_iat(b, 0);
-		jwt_set_SET_STR(&jv, "iss", "c01"); jwt_builder_claim_set(b, &jv);
-		jwt_set_SET_INT(&jv, "n", 12345); jwt_builder_claim_set(b, &jv);
-		tok = jwt_builder_generate(b);
-		jwt_builder_free(b);
+		/* signed by libjwt itself under provider base-1; also: are the two providers' tokens byte-identical? */
+		char *t2[2] = { NULL, NULL };
+		for (int pv = 0; pv < 2; pv++) {
+			jwt_builder_t *b = jwt_builder_new();
+			jwt_value_t jv;
+			vh_set_prov(pv);
+			jwt_builder_setkey(b, (jwt_alg_t)alg, priv[pv]);
+			jwt_builder_enable_iat(b, 0);
+			jwt_set_SET_STR(&jv, "iss", "c01"); jwt_builder_claim_set(b, &jv);
+			jwt_set_SET_INT(&jv, "n", 12345); jwt_builder_claim_set(b, &jv);
+			t2[pv] = jwt_builder_generate(b);
+			jwt_builder_free(b);
+		}
+		printf("[\"D\",%ld,%d,%d,%d,%d]\n", cur_idx, alg, t2[0] != NULL, t2[1] != NULL, t2[0] && t2[1] && !strcmp(t2[0], t2[1]));
+		tok = t2[base - 1];
+		free(t2[2 - base]);
 		if (!tok) {
 			/* provider cannot sign this (ES256K on GnuTLS): nothing to mutate */
 			printf("[\"SKIP\",%ld,\"builder cannot sign\"]\n", cur_idx);
@@ -395,8 +413,7 @@ static void run_case(int prov, int ki, int alg, int base, int pinroute)
 	free(h);
 done:
 	free(tok);
-	jwt_checker_free(chk);
-	jwks_free(set);
+	for (int pv = 0; pv < 2; pv++) { jwt_checker_free(chk2[pv]); jwks_free(set[pv]); }
 }
 
 int main(int argc, char **argv)
@@ -420,19 +437,18 @@ int main(int argc, char **argv)
 	for (int ki = 0; ki < nkeys; ki++)
 		if (vh_key_gen(&KA[ki], specs[ki], &rng) || vh_key_gen(&KB[ki], specs[ki], &rng))
 			vh_harness_fail("keygen %s", specs[ki]);
-	for (int prov = 0; prov < VH_NPROV; prov++)
 	for (int ki = 0; ki < nkeys; ki++)
 	for (int alg = 1; alg < VH_NALG; alg++)
-	for (int base = 0; base < 2; base++)
+	for (int base = 0; base < 3; base++)
 	for (int pr = 0; pr < 2; pr++, idx++) {
 		int before[M_NCLASS];
 		if (!alg_ok_for(&KA[ki], alg)) continue;
 		if (!vh_mine(&args, idx)) continue;
 		cur_idx = idx;
-		vh_case_begin(idx, "\"prov\":%d,\"key\":\"%s\",\"alg\":\"%s\",\"base\":%d,\"pin\":%d", prov, specs[ki], vh_alg_name(alg), base, pr);
-		printf("[\"C\",%ld,%d,\"%s\",\"%s\",%d,%d]\n", idx, prov, specs[ki], vh_alg_name(alg), base, pr);
+		vh_case_begin(idx, "\"key\":\"%s\",\"alg\":\"%s\",\"base\":%d,\"pin\":%d", specs[ki], vh_alg_name(alg), base, pr);
+		printf("[\"C\",%ld,\"%s\",\"%s\",%d,%d]\n", idx, specs[ki], vh_alg_name(alg), base, pr);
 		memcpy(before, classes_seen, sizeof(before));
-		run_case(prov, ki, alg, base, pr);
+		run_case(ki, alg, base, pr);
 		printf("[\"CC\",%ld", idx);
 		for (int c = 0; c < M_NCLASS; c++) printf(",%d", classes_seen[c] - before[c]);
 		printf("]\n");
